@@ -318,24 +318,129 @@ class FuncAnalysis(object):
                         out |= self.lv(c2.c[0])
         return out
 
+    def ifparam_tags(self, b):
+        """tags 'ifparam:<p>' for never-reassigned integer parameters p tested true on every path to b"""
+        out = set()
+        for cond, truth, _d in self.facts.get(b.id, []):
+            if not isinstance(truth, bool):
+                continue
+            c = strip_casts(cond)
+            want = True
+            if c.k == 'bin' and c.v in ('==', '!='):
+                cv = const_value(c.c[1], self.eng.prog)
+                if cv == 0:
+                    want = (c.v == '!=')
+                elif cv == 1 and c.v == '==':
+                    want = True
+                else:
+                    continue
+                c = strip_casts(c.c[0])
+            if c.k == 'ref' and c.v in self.f.param_types and not is_ptr_type(self.f.param_types[c.v]) \
+                    and self.assigned.get(c.v, 0) == 0 and c.v not in self.addr and truth == want:
+                out.add('ifparam:' + c.v)
+        return out
+
+    def witness(self, b, a):
+        """what does a true value of boolean argument expression a (evaluated in block b) imply?
+        returns (kind, tags): kind 'const0' | 'const1' | 'tags' | None"""
+        v = self.value_of(a)
+        if v == 0:
+            return 'const0', set()
+        if isinstance(v, int) or v == 'nonnull':
+            return 'const1', set()
+        c = strip_casts(a)
+        if c.k == 'ref' and c.v in self.f.param_types and self.assigned.get(c.v, 0) == 0 and c.v not in self.addr:
+            return 'tags', {'ifparam:' + c.v}
+        t = self._owner_term(c)
+        if t is not None:
+            return 'tags', t
+        if is_tmp(c):
+            # short-circuit temporary: collect the edge conditions under which it is set to non-zero
+            ones = []
+            for bb in self.f.blocks:
+                for ins in bb.ins:
+                    if ins.op == 'assign' and ins.dst.k == 'ref' and ins.dst.v == c.v:
+                        cv = const_value(ins.src, self.eng.prog)
+                        if cv is None:
+                            return None, set()
+                        if cv:
+                            ones.append(bb)
+            terms = []
+            for bb in ones:
+                # every way into bb must carry an accepted condition
+                st = [bb]
+                seen = set()
+                while st:
+                    x = st.pop()
+                    if x.id in seen:
+                        continue
+                    seen.add(x.id)
+                    for p in x.preds:
+                        tm = p.term
+                        if tm[0] == 'jmp':
+                            st.append(p)
+                            continue
+                        if tm[0] != 'br':
+                            return None, set()
+                        truth = (tm[2] is x)
+                        tg = self._owner_term(strip_casts(tm[1]), truth)
+                        if tg is None:
+                            return None, set()
+                        terms.append(tg)
+            if terms:
+                roots = set(t for tg in terms for t in tg if isinstance(t, tuple))
+                if len(roots) <= 1:
+                    out = set(roots)
+                    if any('donemask' in tg for tg in terms):
+                        out.add('donemask')
+                    return 'tags', out
+        return None, set()
+
+    def _owner_term(self, c, truth=True):
+        """tags implied by condition c having the given truth: owner test of a URI, or a test of a
+        done-mask bit (the mask protocol is checked by the allocation typestate rules)"""
+        want = True
+        c0 = c
+        if c.k == 'bin' and c.v in ('==', '!='):
+            cv = const_value(c.c[1], self.eng.prog)
+            if cv == 0:
+                want = (c.v == '!=')
+            elif cv == 1 and c.v == '==':
+                want = True
+            else:
+                return None
+            c = strip_casts(c.c[0])
+        if truth != want:
+            return None
+        if c.k == 'member' and c.v == 'owner':
+            objs = self.pts(c.c[0]) if c.x['arrow'] else self.lv(c.c[0])
+            if len(objs) == 1:
+                return {('owner', next(iter(objs)))}
+            return None
+        if c.k == 'bin' and c.v == '&':
+            l = strip_casts(c.c[0])
+            if l.k == 'ref' and 'Mask' in l.v:
+                return {'donemask'}
+        return None
+
     def handles_guarded(self, handles, guards):
-        """set of tags {'owner@<root>'} if every handle lies inside a URI object whose owner
-        flag is known true, else empty set."""
+        """{('owner', U)} if every handle lies inside the same URI object U whose owner flag is
+        known true here, else empty."""
         if not handles or not guards:
             return frozenset()
-        roots = set()
+        us = set()
         for h in handles:
-            ok = False
+            ok = None
             for g in guards:
                 if h[0] == g[0] and h[1][:len(g[1])] == g[1]:
-                    ok = True
-                    break
-            if not ok:
+                    if ok is None or len(g[1]) > len(ok[1]):
+                        ok = g
+            if ok is None:
                 return frozenset()
-            roots.add(h[0])
-        if len(roots) != 1:
+            us.add(ok)
+        if len(us) != 1:
             return frozenset()
-        return frozenset(['owner@' + roots.pop()])
+        return frozenset([('owner', us.pop())])
 
     def arg_handles(self, e):
         """lvalue objects from which the pointer value e was loaded (through casts and
@@ -391,11 +496,21 @@ class FuncAnalysis(object):
         return ch
 
     def translate(self, o, amap, callee):
-        """translate callee object into caller objects."""
+        """translate a callee object into caller objects; dereference steps are resolved in the
+        caller's state (stores made by the caller and copy edges are followed)."""
         root, st = o
         if root.startswith('P:'):
-            base = amap.get(root[2:], set())
-            return set(obj_add(b, *st) for b in base)
+            cur = set(amap.get(root[2:], ()))
+            for x in st:
+                if not cur:
+                    break
+                if x == '*':
+                    cur = self.load(cur)
+                elif x == ELL:
+                    cur = set(obj_add(c, ELL) if c[1] and c[1][-1] == ELL else (c[0], c[1] + (ELL,)) for c in cur)
+                else:
+                    cur = set(obj_add(c, x) for c in cur)
+            return cur
         if root.startswith('L:'):
             return set()
         return {o}
@@ -422,7 +537,7 @@ class FuncAnalysis(object):
                         base = i.dst
                         if base.k == 'index' or (base.k == 'un' and base.v == '*'):
                             hd = self.arg_handles(base.c[0])
-                        g = self.handles_guarded(hd, guards) if hd else frozenset()
+                        g = (self.handles_guarded(hd, guards) if hd else frozenset()) | self.ifparam_tags(b)
                         for t in nonlocal_t:
                             ch |= self.add_effect('w', t, g, i.loc, f.name)
                     if is_record_type(dty, prog):
@@ -471,6 +586,7 @@ class FuncAnalysis(object):
                 if arg is not None:
                     hd = self.arg_handles(arg)
                     g = set(self.handles_guarded(hd, guards)) if hd else set()
+                    g |= self.ifparam_tags(b)
                     if self.nonempty_guard(b, arg):
                         g.add('nonempty')
                     for o in self.pts(arg):
@@ -508,20 +624,32 @@ class FuncAnalysis(object):
             for e in list(summ.effects.values()):
                 root = e.obj[0]
                 g = set()
+                skip = False
                 for tag in e.guarded:
-                    if tag.startswith('owner@P:'):
-                        rs = set(o[0] for o in amap.get(tag[8:], ()))
-                        if len(rs) == 1:
-                            g.add('owner@' + rs.pop())
-                    elif tag.startswith('owner@L:'):
-                        pass
-                    else:
-                        g.add(tag)
-                if not any(t.startswith('owner@') for t in g) and root.startswith('P:'):
+                    if isinstance(tag, tuple):
+                        objs = self.translate(tag[1], amap, callee)
+                        if len(objs) == 1:
+                            g.add(('owner', next(iter(objs))))
+                        continue
+                    if tag.startswith('ifparam:'):
+                        pn = tag[8:]
+                        if pn in callee.params and callee.params.index(pn) < len(i.args):
+                            kind, tg = self.witness(b, i.args[callee.params.index(pn)])
+                            if kind == 'const0':
+                                skip = True
+                                break
+                            if kind == 'tags':
+                                g |= tg
+                        continue
+                    g.add(tag)
+                if not any(isinstance(t, tuple) for t in g) and root.startswith('P:'):
                     hd = ahandles.get(root[2:])
                     # effect on the pointee of the argument itself (text reached via a handle)
                     if hd and len(e.obj[1]) == 0:
                         g |= self.handles_guarded(hd, guards)
+                if skip:
+                    continue
+                g |= self.ifparam_tags(b)
                 for o in self.translate(e.obj, amap, callee):
                     ch |= self.add_effect(e.kind, o, g, e.loc, e.func, via=(e.via or '') + '<-' + f.name)
             for ko, vs in summ.heap.items():
